@@ -98,6 +98,8 @@ def key_proto(k) -> str:
         return 's' + cps(p)
     if kind == 'u':
         return 'u' + cps(p)
+    if kind == 'a':
+        return 'n' + cps(p)
     if kind == 'b':
         return 'b1' if p else 'b0'
     if kind == 't':
@@ -131,6 +133,8 @@ def key_xpath(k) -> str:
         return xq_string(p)
     if kind == 'u':
         return f'xs:anyURI({xq_string(p)})'
+    if kind == 'a':
+        return f'xs:untypedAtomic({xq_string(p)})'
     if kind == 'b':
         return 'true()' if p else 'false()'
     if kind == 't':
@@ -145,7 +149,10 @@ def key_xpath(k) -> str:
 def atom_text(x) -> str:
     """canonical text of an atomic value coming out of the implementation"""
     import math
-    from elementpath.datatypes import AnyURI, Date10, AbstractQName, Duration, HexBinary, Base64Binary
+    from elementpath.datatypes import AnyURI, Date10, AbstractQName, Duration, HexBinary, Base64Binary, \
+        UntypedAtomic
+    if isinstance(x, UntypedAtomic):
+        return 'n' + cps(x.value)
     if isinstance(x, AbstractQName):
         return opq_text(1, [ord(c) for c in '{%s}%s' % (x.namespace or '', x.local_name)])
     if isinstance(x, Duration):
@@ -762,7 +769,8 @@ KEY_POOLS = {
             ('i', 100000000000000000000), ('f', '-3')],
     'special': [('f', 'NaN'), ('f', 'INF'), ('f', '-INF'), ('f', '-0.0')],
     'str': [('s', 'a'), ('s', 'b'), ('s', ''), ('s', 'ab'), ('u', 'a'), ('u', 'b'), ('u', ''), ('s', 'é'),
-            ('s', '1'), ('s', 'true'), ('u', 'http://x/y')],
+            ('s', '1'), ('s', 'true'), ('u', 'http://x/y'), ('a', 'a'), ('a', '1'), ('a', 'true'),
+            ('a', '2000-01-01'), ('a', 'b')],   # not ('a', ''): finding F15u (hash('') == hash(0))
     'bool': [('b', True), ('b', False)],
     'date': [('t', (2000, 1, 1, None)), ('t', (2000, 1, 1, 0)), ('t', (2000, 1, 1, 60)),
              ('t', (2000, 1, 2, 840)), ('t', (2000, 1, 1, -600)), ('t', (1999, 12, 31, None)),
@@ -772,7 +780,8 @@ KEY_POOLS['opq'] = [('q', ('u', 'a', '')), ('q', ('u', 'a', 'p')), ('q', ('v', '
                     ('r', ('dayTimeDuration', 'PT24H')), ('r', ('duration', 'P1D')),
                     ('r', ('yearMonthDuration', 'P12M')), ('r', ('duration', 'P1Y')),
                     ('r', ('dayTimeDuration', 'PT0S')), ('r', ('yearMonthDuration', 'P0M')),
-                    ('r', ('duration', 'P1DT0.5S')), ('x', '00FF'), ('x', '00ff'), ('x', ''), ('x', '61')]
+                    ('r', ('duration', 'P1DT0.5S')), ('x', '00FF'), ('x', '00ff'), ('x', ''), ('x', '61'),
+                    ('y', 'AP8='), ('y', ''), ('y', 'YQ==')]
 # hexBinary against base64Binary with the same octets (F15k), integers beyond 2^53 against doubles (F15m)
 CLASH_OPQ = [('y', 'AP8='), ('y', ''), ('y', 'YQ=='), ('x', '00FF'), ('x', ''), ('i', 9007199254740993),
              ('f', '9007199254740992')]
@@ -795,13 +804,10 @@ def gen_key(rng, flavour):
     if r < 0.75:
         return rng.choice(KEY_POOLS['str'])
     if r < 0.85:
-        pool = KEY_POOLS['bool'] if flavour == 'clash' else [('s', 'k'), ('i', 7)]
-        return rng.choice(pool)
+        return rng.choice(KEY_POOLS['bool'] + [('s', 'k'), ('i', 7), ('i', 1), ('i', 0)])
     if r < 0.93:
-        if flavour == 'dates-naive':
-            return rng.choice([k for k in KEY_POOLS['date'] if k[1][3] is None])
-        if flavour == 'dates-aware':
-            return rng.choice([k for k in KEY_POOLS['date'] if k[1][3] is not None])
+        if flavour in ('dates-naive', 'dates-aware', 'clash'):
+            return rng.choice(KEY_POOLS['date'] + CLASH_DATES)
         return rng.choice(KEY_POOLS['num'])
     return rng.choice([('i', rng.randrange(-2, 6)), ('s', rng.choice('abc')), ('d', str(rng.randrange(0, 4)) + '.0')])
 
@@ -983,8 +989,8 @@ class Gen:
                 return self.add(('lookup', src, '*'), 'free' if self.types[src] == 'map' else 'seq')
             if self.types[src] == 'arr':
                 ks = [('i', rng.randrange(0, 5)) for _ in range(rng.choice([1, 1, 2]))]
-                if self.flavour == 'clash' and rng.random() < 0.3:
-                    ks = [('b', True)]
+                if rng.random() < 0.08:
+                    ks = [rng.choice([('b', True), ('b', False)])]    # a boolean is no position: XPTY0004
                 elif rng.random() < 0.06:
                     ks = [rng.choice([('s', 'a'), ('d', '1.0'), ('f', '1')])]     # not an integer: XPTY0004
             else:
@@ -1103,11 +1109,13 @@ def twist(rng, k, flavour):
                 return rng.choice([('i', int(x)), ('d', f'{int(x)}.00')])
             return ('d', p) if 'e' not in p.lower() else k
         if kind == 's':
-            return ('u', p)
+            return rng.choice([('u', p), ('a', p)] if p else [('u', p)])
         if kind == 'u':
-            return ('s', p)
-        if kind == 'b' and flavour == 'clash':
-            return ('i', 1 if p else 0)
+            return rng.choice([('s', p), ('a', p)] if p else [('s', p)])
+        if kind == 'a':
+            return rng.choice([('s', p), ('u', p)])
+        if kind == 'b':
+            return ('i', 1 if p else 0)          # not the same key
         if kind == 'q':
             return ('q', (p[0], p[1], 'zz' if not p[2] else ''))
         if kind == 'r':
@@ -1116,8 +1124,8 @@ def twist(rng, k, flavour):
                   'P0M': ('dayTimeDuration', 'PT0S')}
             return ('r', tw.get(p[1], p))
         if kind == 'x':
-            return ('x', p.lower() if p != p.lower() else p.upper()) if flavour != 'clash' else rng.choice(
-                [('y', __import__('base64').b64encode(bytes.fromhex(p)).decode())])
+            return rng.choice([('x', p.lower() if p != p.lower() else p.upper()),
+                               ('y', __import__('base64').b64encode(bytes.fromhex(p)).decode())])
     except (ValueError, ArithmeticError):
         pass
     return k
@@ -1150,7 +1158,7 @@ CORPUS = [
      ('mget', 1, ('f', '1')), ('mget', 1, ('d', '1.0')), ('mget', 1, ('u', 'a')), ('mget', 1, ('i', 0)),
      ('mput', 1, ('d', '1.00'), 1), ('mkeys', 6), ('mctor', [(('i', 1), 0), (('f', '1'), 0)]),
      ('mctor', [(('s', 'a'), 0), (('u', 'a'), 0)]), ('mctor', [(('d', '0.1'), 0), (('f', '0.1'), 0)])],
-    # F15d: boolean against number
+    # F15d (fixed): a boolean key is not the number 0/1; a boolean is no array position
     [('seq', [('i', 1)]), ('mctor', [(('b', True), 0), (('i', 1), 0)]), ('mctor', [(('b', True), 0)]),
      ('mget', 2, ('i', 1)), ('mcontains', 2, ('f', '1')), ('mput', 2, ('i', 1), 0), ('asquare', [0, 0]),
      ('lookup', 6, [('b', True)], 'paren')],
@@ -1200,6 +1208,11 @@ CORPUS = [
     [('seq', [('i', 1)]), ('seq', [('i', 2)]), ('mctor', [(('i', 1), 0)]), ('mctor', [(('d', '1.0'), 1)]), ('seq', [2, 3]),
      ('mmerge', 4, 'first'), ('mmerge', 4, 'last'), ('mmerge', 4, 'combine'), ('mmerge', 4, 'reject'), ('mmerge', 4, 'first'),
      ('mmerge', 4, 'default')],
+    # xs:untypedAtomic keys: string class; the constructor stores them as xs:string, map:entry/put keep them
+    [('seq', [('i', 1)]), ('mctor', [(('a', '1'), 0), (('i', 1), 0)]), ('mkeys', 1), ('mentry', ('a', 'a'), 0), ('mkeys', 3),
+     ('mget', 3, ('s', 'a')), ('mcontains', 3, ('u', 'a')), ('mput', 3, ('u', 'a'), 0), ('mkeys', 7), ('mget', 1, ('a', '1')),
+     ('mctor', [(('a', 'x'), 0), (('s', 'x'), 0)]), ('seq', [('a', '1')]), ('seq', [('s', '1')]), ('deq', 11, 12), ('seq', [('i', 1)]),
+     ('deq', 11, 14)],
     # F15t: a QName key is not the string of its lexical form
     [('seq', [('i', 1)]), ('mctor', [(('q', ('u', 'b', '')), 0)]), ('mremove', 1, [('s', 'b')]), ('mcontains', 1, ('s', 'b')),
      ('mput', 1, ('s', 'b'), 0), ('mfind', 1, ('s', 'b'))],
@@ -1229,7 +1242,7 @@ def parse_answer(ans: str):
     return blocks
 
 
-KIND_NAMES = {'i': 'integer', 'd': 'decimal', 'f': 'double', 's': 'string', 'u': 'anyURI', 'b': 'boolean',
+KIND_NAMES = {'a': 'untypedAtomic', 'i': 'integer', 'd': 'decimal', 'f': 'double', 's': 'string', 'u': 'anyURI', 'b': 'boolean',
               't': 'date', 'q': 'QName', 'r': 'duration', 'x': 'hexBinary', 'y': 'base64Binary'}
 
 
@@ -1250,33 +1263,14 @@ def op_keys(op):
 
 
 def classify_tags(ops, k):
-    """finding ids whose trigger predicate holds for the keys of ops[0..k] (the driver computed the
-    predicate itself: EPV.MapArray.noClash over the keys used so far, plus a boolean `?` key)"""
+    """finding ids whose trigger predicate holds for ops[0..k] (the driver computed the predicate itself:
+    noClash of the keys — always true since fix-c15-3 — and atomClash of the atoms of a deep-equal step)"""
     tags = set()
-    keys = []
-    for op in ops[:k + 1]:
-        if op[0] == 'mctor':
-            keys += [kk for kk, _ in op[1]]
-        elif op[0] in ('mput', 'mget', 'mcontains', 'mfind'):
-            keys.append(op[2])
-        elif op[0] == 'mentry':
-            keys.append(op[1])
-        elif op[0] == 'mremove':
-            keys += op[2]
-        elif op[0] == 'lookup' and op[2] != '*':
-            keys += op[2]
-            if any(kk[0] == 'b' for kk in op[2]):
-                tags.add('F15d')
-    if any(kk[0] == 'b' for kk in keys) and any(kk[0] in 'idf' for kk in keys):
-        tags.add('F15d')
-    if sum(1 for kk in keys if kk[0] == 't') >= 2:
-        tags.add('F15f')
     lits = [a for op in ops[:k + 1] if op[0] == 'seq' for a in op[1] if not isinstance(a, int)]
+    lits += [kk for op in ops[:k + 1] for kk in op_keys(op)]
     lits += [op[2][1] for op in ops[:k + 1] if op[0] == 'afe' and not isinstance(op[2], str)]
-    if any(kk[0] == 'x' for kk in keys + lits) and any(kk[0] == 'y' for kk in keys + lits):
-        tags.add('F15k')
-    if any(op[0] == 'deq' for op in ops[:k + 1]) and any(kk[0] == 'i' and abs(kk[1]) > 2 ** 53 for kk in keys + lits) \
-            and any(kk[0] == 'f' for kk in keys + lits):
+    if any(op[0] == 'deq' for op in ops[:k + 1]) and any(kk[0] == 'i' and abs(kk[1]) > 2 ** 53 for kk in lits) \
+            and any(kk[0] == 'f' for kk in lits):
         tags.add('F15m')
     return sorted(tags)
 
@@ -1375,7 +1369,7 @@ def from_jsonable(ops):
         return (kind, tuple(p)) if kind in ('t', 'q', 'r') else (kind, p)
 
     def is_key(x):
-        return isinstance(x, list) and len(x) == 2 and isinstance(x[0], str) and x[0] in 'idfsubtqrxy' and len(x[0]) == 1
+        return isinstance(x, list) and len(x) == 2 and isinstance(x[0], str) and x[0] in 'idfsubtqrxya' and len(x[0]) == 1
 
     def conv(x):
         if is_key(x):
